@@ -38,7 +38,9 @@ MANIFEST = {
             "per_name, C20_software_initial_state (every node entry, well-formed or not), C20_key_order_irrelevant (every mapping incl. "
             "airspace capacities; one lemma per mapping-iteration site of the regenerated site inventory), C20_schedule_assembles/"
             "_periodic/_key_order, the office-lan theorems (C20_office_build_eq_declared and the structure theorems) which now also "
-            "hold INSIDE build. Tie: Gen/Config.lean (site inventory; constants; system-software, firewall-ACL, frequency tables; "
+            "hold INSIDE build; C20_option_precedence: for every option that has a second source outside the entry (regenerated table "
+            "of install() hooks: dns-client dns_server vs the node's dns_server) the built value is the entry's, else the outer "
+            "source's, else none - part of build = declared / spec through SoftInv.effective. Tie: Gen/Config.lean (site inventory; constants; system-software, firewall-ACL, frequency tables; "
             "assignment table and constructor chains of every software class; every key of the defaults section with the statement "
             "that applies it; the keys the eight ACL rule loops read (both address spellings, each wildcard mask from its own key); "
             "wireless-router ports and sections; scheduler shape and freshness; no loader consumes its argument; install/uninstall "
